@@ -177,6 +177,8 @@ def run(ctx):
                 res.mismatch(op[:300], want[:200], out[:200])
         res.extra['model_evaluations'] = len(ops)
     end_to_end(ctx, res)
+    import rogue
+    rogue.campaign(ctx, res, ctx.scale(10, 200), 50)
     return res
 
 
